@@ -15,7 +15,7 @@ fn alphabet() -> Vec<Action> {
             }
         }
         for bind in [Bind::A, Bind::C, Bind::Reuse] {
-            a.push(Action::Exec { id, bind, null_first: false, shim_ignores: false });
+            a.push(Action::Exec { id, bind, null_first: false, shim_ignores: 0 });
         }
     }
     // chunks large enough to make an implementation's buffers grow (2000 / 12000 bytes)
@@ -23,7 +23,7 @@ fn alphabet() -> Vec<Action> {
     a.push(Action::Long { id: 1, param: 1, chunk: 4 });
     a.push(Action::Long { id: 2, param: 0, chunk: 4 });
     a.push(Action::Long { id: 1, param: 5, chunk: 2 });
-    a.push(Action::Exec { id: 1, bind: Bind::C, null_first: true, shim_ignores: false });
+    a.push(Action::Exec { id: 1, bind: Bind::C, null_first: true, shim_ignores: 0 });
     a.push(Action::Close { id: 1 });
     a.push(Action::Prepare { id: 1, n: 2, ok: true });
     a
